@@ -272,6 +272,11 @@ def nr{k}() -> NoReturn: raise ValueError()
 class Sl{k}:
   __slots__ = ('a', 'b')
   def __init__(self): self.a = 1; self.b = 'x'
+class SlEmpty{k}:
+  __slots__ = ()
+class SlEmptySub{k}(SlEmpty{k}):
+  __slots__ = []
+  def m(self): return 1
 class Nw{k}:
   def __new__(cls, x): return super().__new__(cls)
   def __init_subclass__(cls, **kw): pass
@@ -439,6 +444,10 @@ def feature_program(rng: random.Random) -> str:
   parts = [FEATURE_HEADER]
   for k, f in enumerate(rng.sample(_SNIPPETS, n)):
     parts.append(f(rng, k))
+  if rng.random() < 0.15:
+    # hidden (folded-in) base classes: output._class_to_def / MergeBaseClass
+    hb = next(f for f in _SNIPPETS if f.__name__ == "hidden_bases")
+    parts.append(hb(rng, 8))
   if rng.random() < 0.05:
     parts.append(rng.choice(RARE_DEFECT_SNIPPETS).format(k=9))
   return "\n".join(parts)
